@@ -40,8 +40,60 @@ func renameLocals(patterns []string) {
 			}
 			return v.Parent() != v.Pkg().Scope() && v.Parent() != types.Universe
 		}
+		// names that document an API are left alone: parameters of interface methods and of
+		// function types (they have no scope), and the parameters and named results of exported
+		// functions and methods —
+		// a few rules read the roles of same-typed values from exactly these names (§5.5)
+		keep := map[types.Object]bool{}
+		for _, f := range pkg.Syntax {
+			for _, d := range f.Decls {
+				fd, ok := d.(*ast.FuncDecl)
+				if !ok || !fd.Name.IsExported() {
+					continue
+				}
+				for _, fl := range []*ast.FieldList{fd.Type.Params, fd.Type.Results} {
+					if fl == nil {
+						continue
+					}
+					for _, fld := range fl.List {
+						for _, nm := range fld.Names {
+							if o := info.Defs[nm]; o != nil {
+								keep[o] = true
+							}
+						}
+					}
+				}
+			}
+		}
+		for _, f := range pkg.Syntax {
+			ast.Inspect(f, func(n ast.Node) bool {
+				it, ok := n.(*ast.InterfaceType)
+				if !ok || it.Methods == nil {
+					return true
+				}
+				for _, m := range it.Methods.List {
+					ft, ok := m.Type.(*ast.FuncType)
+					if !ok {
+						continue
+					}
+					for _, fl := range []*ast.FieldList{ft.Params, ft.Results} {
+						if fl == nil {
+							continue
+						}
+						for _, fld := range fl.List {
+							for _, nm := range fld.Names {
+								if o := info.Defs[nm]; o != nil {
+									keep[o] = true
+								}
+							}
+						}
+					}
+				}
+				return true
+			})
+		}
 		for id, o := range info.Defs {
-			if o != nil && isLocal(o) && id.Name != "_" {
+			if o != nil && isLocal(o) && id.Name != "_" && !keep[o] && o.Parent() != nil {
 				rename[o] = id.Name + "Z"
 			}
 		}
